@@ -221,8 +221,6 @@ Definition open_ok (rest : list logent) (o : tobs) : bool :=
 
 (* one transaction: [tr] = the driver calls made on its behalf, in order *)
 Definition prop_thread (sc : script) (tr : list logent) (o : tobs) : bool :=
-  (* a body handed to a Transact on the transaction's own session is never run *)
-  (o_nest o =? 0) &&
   match tr with
   | [] =>
     (* no transaction at all: only when the call was refused (context already cancelled, breaker,
